@@ -161,6 +161,9 @@ func c01(r *gen.Rng, tier string, shard, nshard int) {
 	rls := []int{0, 1, 2, 3, 4, 5, 126, 127, 128, 129, 130, 16382, 16383, 16384, 16385, 16386}
 	if tier == "thorough" {
 		rls = append(rls, 2097150, 2097151, 2097152, 2097153)
+	} else {
+		// the three-/four-byte boundary is part of every run (PUBLISH and SUBACK only, one packet each)
+		rls = append(rls, 2097151, 2097152)
 	}
 	k := 0
 	for _, rl := range rls {
@@ -172,7 +175,7 @@ func c01(r *gen.Rng, tier string, shard, nshard int) {
 			reps := 3
 			if rl > 100000 {
 				reps = 1
-				if t != packet.PUBLISH && t != packet.SUBACK {
+				if t != packet.PUBLISH && (t != packet.SUBACK || tier != "thorough") {
 					continue
 				}
 			}
@@ -375,6 +378,15 @@ func c02(r *gen.Rng, tier string, shard, nshard int) {
 		}
 	}
 	w.Extra["hdr1_hdr2_exhaustive"] = true
+	// one valid packet whose remaining length needs four bytes (the header enumeration above only reaches the body-less cases)
+	if shard == 0 {
+		if p, ok := r.PacketWithRL(packet.PUBLISH, 2097152); ok {
+			buf := make([]byte, p.Len())
+			if n, err := p.Encode(buf); err == nil {
+				c02Bytes(r, packet.PUBLISH, buf[:n], "valid-rl4")
+			}
+		}
+	}
 	n3 := 30000
 	if tier == "thorough" {
 		n3 = 300000
